@@ -99,6 +99,12 @@ func UseT1(y int) bool {
 	return y == y
 }
 """,
+    "arch_386.go": """package mx
+
+func Use386(z int) bool {
+	return z == z
+}
+""",
     "t2.go": """//go:build t2
 
 package mx
@@ -111,12 +117,17 @@ func UseT2(s string) bool {
 """,
 }
 
-MATRIX_LINES = {
-    "plain": "plain:",
-    "t1": "t1: -tags=t1",
-    "t2": "t2: -tags=t2",
-    "t12": "t12: -tags=t1,t2",
+# name -> (matrix line, env for the equivalent single run, flags for the equivalent single run, files checked)
+# Env-based lines (e1, a386) matter: a configuration's environment must not leak into later lines.
+MATRIX_BUILDS = {
+    "plain": ("plain:", {}, [], {"common.go"}),
+    "t1": ("t1: -tags=t1", {}, ["-tags", "t1"], {"common.go", "t1.go"}),
+    "t2": ("t2: -tags=t2", {}, ["-tags", "t2"], {"common.go", "t2.go"}),
+    "t12": ("t12: -tags=t1,t2", {}, ["-tags", "t1,t2"], {"common.go", "t1.go", "t2.go"}),
+    "e1": ("e1: GOFLAGS=-tags=t1", {"GOFLAGS": "-tags=t1"}, [], {"common.go", "t1.go"}),
+    "a386": ("a386: GOARCH=386", {"GOARCH": "386"}, [], {"common.go", "arch_386.go"}),
 }
+MATRIX_LINES = {k: v[0] for k, v in MATRIX_BUILDS.items()}
 
 TEXT_RE = re.compile(r"^(\S+?):(\d+):(\d+): (.*?)(?: \[([^\]]*)\])? \((\w+)\)$")
 
@@ -149,13 +160,14 @@ def matrix_binding(ctx, sc):
         for comb in itertools.permutations(names, k):
             subsets.append(comb)
     if ctx.quick:
-        subsets = [s for s in subsets if len(s) <= 2] + vlib.sample(ctx, [s for s in subsets if len(s) == 3], 8)
+        subsets = [s for s in subsets if len(s) <= 2] + vlib.sample(ctx, [s for s in subsets if len(s) == 3], 10)
     # per-build single runs: text output (problem set per build) and binary stream
     per_build_text, per_build_bin = {}, {}
     for n in names:
-        flags = MATRIX_LINES[n].split(":", 1)[1].strip()
-        tagarg = ["-tags", flags.split("=", 1)[1]] if flags else []
-        rc, so, se = vlib.sh([sc, "-checks", checks] + tagarg + ["./..."], cwd=mod, env=env, timeout=600)
+        _, benv, bflags, _ = MATRIX_BUILDS[n]
+        env_n = dict(env)
+        env_n.update(benv)
+        rc, so, se = vlib.sh([sc, "-checks", checks] + bflags + ["./..."], cwd=mod, env=env_n, timeout=1200)
         if rc not in (0, 1):
             raise Inconclusive("matrix fixture run failed (%s): rc=%d %s" % (n, rc, se[-1000:]))
         per_build_text[n] = parse_text(so)
@@ -164,7 +176,6 @@ def matrix_binding(ctx, sc):
         p = subprocess_bytes([sc, "-checks", checks, "-f", "binary", "-matrix", "./..."], cwd=mod, env=env,
                              stdin=(MATRIX_LINES[n] + "\n").encode())
         per_build_bin[n] = p
-        # which files did this build check? (for the oracle's `all` rule): common.go always, t1/t2 per tag
     # fixture sanity: the fixture must exercise both strategies and a build-dependent `all` problem
     allp = set(p for n in names for p in per_build_text[n])
     if not any(p[4] == "U1000" for p in allp) or not any(p[4] == "SA4000" for p in allp):
@@ -172,12 +183,12 @@ def matrix_binding(ctx, sc):
     u_onlyT1 = [p for p in allp if p[4] == "U1000" and "onlyT1" in p[3]]
     if not u_onlyT1 or any(u_onlyT1[0] in per_build_text[n] for n in ("t1", "t12")):
         raise Inconclusive("matrix fixture: onlyT1 is not build-dependent as designed")
-    checked = {"plain": {"common.go"}, "t1": {"common.go", "t1.go"}, "t2": {"common.go", "t2.go"},
-               "t12": {"common.go", "t1.go", "t2.go"}}
-    n_cmp = 0
-    for comb in subsets:
+    if per_build_text["e1"] != per_build_text["t1"] or per_build_text["a386"] == per_build_text["plain"]:
+        raise Inconclusive("matrix fixture: env-based builds do not behave as designed")
+    checked = {k: v[3] for k, v in MATRIX_BUILDS.items()}
+    def one(comb):
         stdin = "".join(MATRIX_LINES[n] + "\n" for n in comb)
-        rc, so, se = vlib.sh([sc, "-checks", checks, "-matrix", "./..."], cwd=mod, env=env, input=stdin, timeout=600)
+        rc, so, se = vlib.sh([sc, "-checks", checks, "-matrix", "./..."], cwd=mod, env=env, input=stdin, timeout=1800)
         if rc not in (0, 1):
             raise Inconclusive("-matrix run failed: rc=%d %s" % (rc, se[-1000:]))
         got_matrix = parse_text(so)
@@ -194,7 +205,10 @@ def matrix_binding(ctx, sc):
                 if any(p[0] in checked[n] and p not in per_build_text[n] for n in comb):
                     continue
             want.append(key + (",".join(sorted(reporters)),))
-        want = sorted(want)
+        return comb, sorted(want), got_matrix, got_merge
+
+    n_cmp = 0
+    for comb, want, got_matrix, got_merge in vlib.pmap(one, subsets, workers=6):
         n_cmp += 1
         case = {"kind": "matrix", "builds": list(comb), "want": want, "matrix": got_matrix, "merge": got_merge}
         if got_matrix != want:
@@ -206,7 +220,7 @@ def matrix_binding(ctx, sc):
 
 def subprocess_bytes(cmd, cwd, env, stdin, ok=(0,)):
     import subprocess
-    p = subprocess.run(cmd, cwd=cwd, env=env, input=stdin, stdout=subprocess.PIPE, stderr=subprocess.PIPE, timeout=600)
+    p = subprocess.run(cmd, cwd=cwd, env=env, input=stdin, stdout=subprocess.PIPE, stderr=subprocess.PIPE, timeout=1800)
     if p.returncode not in ok:
         raise Inconclusive("command failed rc=%d: %s\n%s" % (p.returncode, cmd, p.stderr.decode()[-1500:]))
     return p.stdout
@@ -232,6 +246,10 @@ def run(ctx):
         for m in mism:
             ctx.violation(doc["key"], doc["what"], {"case": case["case"], "observed": m})
         return
+
+    if os.environ.get("C12_ONLY") == "matrix":   # development aid: only the -matrix binding (writes no complete evidence)
+        n_matrix, msample = matrix_binding(ctx, sc)
+        raise Inconclusive("C12_ONLY=matrix: %d matrix comparisons, %d violations (partial run, no verdict)" % (n_matrix, len(ctx.violations)))
 
     # 1. TLC: laws on the oracle + case emission, every sequence of <= 3 runs
     r = vlib.run_tlc(ctx, "MCMerge", "MCMerge_gen3laws.cfg", workers=min(vlib.NCPU, 12), timeout=1200)
